@@ -147,6 +147,35 @@ static void gfree(gbuf *g)
     if (g->map) munmap(g->map, g->maplen);
     g->map = NULL;
 }
+/* Two guarded windows exactly dist bytes apart (2^31 or 2^32): buffers of one call that far from each other are ordinary
+ * separate buffers; a pointer difference kept in 32 bits would not think so.  Address space only (MAP_NORESERVE). */
+static unsigned char *far_base; static size_t far_len;
+static void gfar(gbuf *a, gbuf *b, size_t lena, size_t lenb, unsigned long long dist)
+{
+    size_t mx = lena > lenb ? lena : lenb;
+    size_t inner = ((mx + 64 + PAGE - 1) / PAGE) * PAGE, win = inner + 2 * PAGE;
+    far_len = (size_t)dist + win + PAGE;
+    far_base = mmap(NULL, far_len, PROT_NONE, MAP_PRIVATE | MAP_ANONYMOUS | MAP_NORESERVE, -1, 0);
+    if (far_base == MAP_FAILED) die("cannot reserve the address space for a far pair");
+    gbuf *gs[2] = {a, b}; size_t ls[2] = {lena, lenb};
+    for (int i = 0; i < 2; i++) {
+        gbuf *g = gs[i];
+        memset(g, 0, sizeof(*g));
+        g->name = i ? "far-b" : "far-a";
+        g->map = far_base + (i ? dist : 0); g->maplen = win;
+        g->inner = g->map + PAGE; g->innerlen = inner;
+        if (mprotect(g->inner, inner, PROT_READ | PROT_WRITE)) die("mprotect failed");
+        memset(g->inner, CANARY, inner);
+        g->len = ls[i]; g->p = g->inner + 16;
+        if (nlive < MAXLIVE) live[nlive++] = g;
+    }
+}
+static void gfar_done(void) { if (far_base) { munmap(far_base, far_len); far_base = NULL; } }
+static unsigned long long far_dist(void)
+{
+    const char *f = kv("far", "");
+    return !*f ? 0 : (f[0] == '2' ? 1ULL << 31 : 1ULL << 32);
+}
 static int gcanary(const gbuf *g)
 {
     const unsigned char *q;
@@ -291,10 +320,14 @@ static void op_enc(void)
     gvalue(&ad, "ad", kv("ad", "-"), 2);
     gvalue(&m, "m", kv("m", "-"), 1);
     if (k.len != (size_t)v / 8 || n.len != 12) die("bad key/nonce length");
-    galloc(&c, "c", m.len + 8, g_place, g_offn > 0 ? g_off[0] : 0);
+    unsigned long long fard = alias ? 0 : far_dist();
+    gbuf fm; memset(&fm, 0, sizeof(fm));
+    if (fard) gfar(&fm, &c, m.len, m.len + 8, fard);
+    else galloc(&c, "c", m.len + 8, g_place, g_offn > 0 ? g_off[0] : 0);
     memset(c.p, (int)kvi("pf", 0xA5), c.len);
     unsigned char *mcopy = dupbuf(&m), *adcopy = dupbuf(&ad), *kcopy = dupbuf(&k), *ncopy = dupbuf(&n);
     const unsigned char *mp = gptr(&m);
+    if (fard) { if (m.len) memcpy(fm.p, m.p, m.len); mp = fm.p; gro(&fm); }
     if (alias) { memcpy(c.p, m.p, m.len); mp = c.p; }
     gro(&k); gro(&n); gro(&ad); gro(&m);
     long vg0 = VG_ERRORS();
@@ -304,15 +337,17 @@ static void op_enc(void)
     long vgerr = VG_ERRORS() - vg0;
     grw(&k); grw(&n); grw(&ad); grw(&m);
     int inmod = !(inputs_same(&m, mcopy) && inputs_same(&ad, adcopy) && inputs_same(&k, kcopy) && inputs_same(&n, ncopy));
+    if (fard) { grw(&fm); inmod |= (m.len && memcmp(fm.p, mcopy, m.len) != 0); }
     jbegin("Enc"); jstr("mode", mode); jint("v", v);
     jbytes("k", kcopy, k.len); jbytes("n", ncopy, n.len); jbytes("ad", adcopy, ad.len);
     jbytes("m", mcopy, m.len); jbytes("out", c.p, c.len); jint("clen", (long)clen);
     jint("keep", kvi("keep", 0)); jint("alias", alias); jint("inmod", inmod);
-    jint("canary", gcanary(&c) && gcanary(&m) && gcanary(&ad) && gcanary(&k) && gcanary(&n));
-    jint("taint", vgerr);
+    jint("canary", gcanary(&c) && gcanary(&m) && gcanary(&ad) && gcanary(&k) && gcanary(&n) && gcanary(&fm));
+    jint("taint", vgerr); jint("far", (long)(fard >> 30));
     jend();
     free(mcopy); free(adcopy); free(kcopy); free(ncopy);
-    gfree(&k); gfree(&n); gfree(&ad); gfree(&m); gfree(&c);
+    if (fm.map) gfree(&fm);
+    gfree(&k); gfree(&n); gfree(&ad); gfree(&m); gfree(&c); gfar_done();
 }
 
 /* dec mode= v= k= n= ad= c= [alias=1] [pf=byte] [ev=Dec|DecTag]
@@ -347,7 +382,15 @@ static void op_dec(int tagonly)
         if (adj == 1) { memcpy(both.p, c.p, c.len); memset(both.p + c.len, pf, outlen); }
         else { memset(both.p, pf, outlen); memcpy(both.p + outlen, c.p, c.len); }
     }
-    if (adj && !alias) {
+    unsigned long long fard = (alias || adj) ? 0 : far_dist();
+    gbuf fc, fmm; memset(&fc, 0, sizeof(fc)); memset(&fmm, 0, sizeof(fmm));
+    if (fard) {          /* packet and output 2 GiB / 4 GiB apart */
+        gfar(&fc, &fmm, c.len, outlen, fard);
+        if (c.len) memcpy(fc.p, c.p, c.len);
+        memset(fmm.p, pf, outlen);
+        adj = 3; cp = fc.p; mp = fmm.p;
+        gro(&k); gro(&n); gro(&ad); gro(&fc);
+    } else if (adj && !alias) {
         cp = (adj == 1) ? both.p : both.p + outlen;
         mp = (adj == 1) ? both.p + c.len : both.p;
         gro(&k); gro(&n); gro(&ad);
@@ -390,6 +433,7 @@ static void op_dec(int tagonly)
     PUBLIC(c.p, c.len);
     long vgerr = VG_ERRORS() - vg0;
     grw(&k); grw(&n); grw(&ad); grw(&c);
+    if (fard) grw(&fc);
     int inmod = !(inputs_same(&ad, adcopy) && inputs_same(&k, kcopy) && inputs_same(&n, ncopy));
     if (!alias) inmod |= !inputs_same(&c, ccopy);
     else if (c.len >= 8) inmod |= (memcmp(c.p + outlen, ccopy + outlen, 8) != 0);  /* tag bytes stay */
@@ -417,12 +461,14 @@ static void op_dec(int tagonly)
     jint("mlen", mlen == (size_t)-1 ? -1 : (long)mlen); jint("mlen0", mlen0);
     jbytes("mout", mp ? mp : m.p, outlen);
     jint("untouched", untouched); jint("alias", alias); jint("inmod", inmod);
-    jint("canary", gcanary(&c) && gcanary(&m) && gcanary(&ad) && gcanary(&k) && gcanary(&n) && gcanary(&both) && gcanary(&arena));
-    jint("taint", vgerr); jint("adj", adj); jint("lay", lay);
+    jint("canary", gcanary(&c) && gcanary(&m) && gcanary(&ad) && gcanary(&k) && gcanary(&n) && gcanary(&both) && gcanary(&arena)
+                   && gcanary(&fc) && gcanary(&fmm));
+    jint("taint", vgerr); jint("adj", adj); jint("lay", lay); jint("far", (long)(fard >> 30));
     jend();
     free(ccopy); free(adcopy); free(kcopy); free(ncopy);
     if (both.map) gfree(&both);
     if (arena.map) gfree(&arena);
+    if (fc.map) { gfree(&fc); gfree(&fmm); gfar_done(); }
     gfree(&k); gfree(&n); gfree(&ad); gfree(&c); gfree(&m);
 }
 
@@ -580,6 +626,7 @@ static void op_perm(void)
 /* ------------------------------------------------------------------ stateful objects */
 #define NOBJ 8
 static gbuf hashobj[NOBJ], hmacobj[NOBJ], hkdfobj[NOBJ], prngobj[NOBJ];
+static int inj_skipped[NOBJ];    /* pinject did not recognise the private layout: what follows on this object is not judged */
 static int obj_fill = 0xAA;      /* what a state object holds before the library first touches it */
 
 static gbuf *getobj(gbuf *tab, const char *name, size_t size)
@@ -606,9 +653,13 @@ static void op_garbage(void)
     jbegin("Garbage"); jstr("kind", kind); jint("obj", kvi("obj", 0)); jend();
 }
 
+/* Every argument expression of an API call is evaluated exactly once (a function-like macro in the public header that
+ * names its argument twice would not): the object pointer of every call is passed as ONCE(p). */
+static int g_evals;
+#define ONCE(x) (g_evals++, (x))
 static void emit_obj(const char *ev, gbuf *o)
 {
-    jbegin(ev); jint("obj", kvi("obj", 0)); jint("canary", gcanary(o));
+    jbegin(ev); jint("obj", kvi("obj", 0)); jint("canary", gcanary(o)); jint("evals", g_evals);
 }
 
 static void op_hash(void)
@@ -647,9 +698,21 @@ static void op_hinit(int re)
 {
     gbuf *o = getobj(hashobj, "hashstate", sizeof(tinyjambu_hash_state_t));
     long vg0 = VG_ERRORS();
-    if (re) tinyjambu_hash_reinit((tinyjambu_hash_state_t *)o->p); else tinyjambu_hash_init((tinyjambu_hash_state_t *)o->p);
+    if (re) tinyjambu_hash_reinit(ONCE((tinyjambu_hash_state_t *)o->p)); else tinyjambu_hash_init(ONCE((tinyjambu_hash_state_t *)o->p));
     long vgerr = VG_ERRORS() - vg0;
     emit_obj(re ? "HReinit" : "HInit", o); jint("taint", vgerr); jend();
+}
+/* hmove obj=<from> to=<to> : the caller relocates a hash state object (a plain struct: memcpy) and goes on with the copy;
+ * the old storage is reused for something else */
+static void op_hmove(void)
+{
+    gbuf *o = getobj(hashobj, "hashstate", sizeof(tinyjambu_hash_state_t));
+    long to = kvi("to", 0);
+    if (to < 0 || to >= NOBJ) die("bad to");
+    if (!hashobj[to].map) { galloc(&hashobj[to], "hashstate", sizeof(tinyjambu_hash_state_t), 'e', 0); }
+    gbuf *d = &hashobj[to];
+    if (d != o) { memcpy(d->p, o->p, o->len); memset(o->p, 0xDD, o->len); }
+    jbegin("HMove"); jint("obj", kvi("obj", 0)); jint("to", to); jint("canary", gcanary(o) && gcanary(d)); jend();
 }
 static void op_hupdate(void)
 {
@@ -659,7 +722,7 @@ static void op_hupdate(void)
     gro(&d);
     long vg0 = VG_ERRORS();
     SECRET(d.p, d.len);
-    tinyjambu_hash_update((tinyjambu_hash_state_t *)o->p, gptr(&d), d.len);
+    tinyjambu_hash_update(ONCE((tinyjambu_hash_state_t *)o->p), gptr(&d), d.len);
     PUBLIC(d.p, d.len);
     long vgerr = VG_ERRORS() - vg0;
     grw(&d);
@@ -673,7 +736,7 @@ static void op_hfinal(void)
     gbuf out; galloc(&out, "out", 32, g_place, g_offn > 0 ? g_off[0] : 0);
     memset(out.p, (int)kvi("pf", 0xA5), 32);
     long vg0 = VG_ERRORS();
-    tinyjambu_hash_finalize((tinyjambu_hash_state_t *)o->p, out.p);
+    tinyjambu_hash_finalize(ONCE((tinyjambu_hash_state_t *)o->p), out.p);
     PUBLIC(out.p, 32);
     long vgerr = VG_ERRORS() - vg0;
     emit_obj("HFinal", o); jbytes("out", out.p, 32); jint("ocanary", gcanary(&out)); jint("taint", vgerr); jend();
@@ -683,7 +746,7 @@ static void op_hfree(void)
 {
     gbuf *o = getobj(hashobj, "hashstate", sizeof(tinyjambu_hash_state_t));
     long vg0 = VG_ERRORS();
-    tinyjambu_hash_free((tinyjambu_hash_state_t *)o->p);
+    tinyjambu_hash_free(ONCE((tinyjambu_hash_state_t *)o->p));
     long vgerr = VG_ERRORS() - vg0;
     emit_obj("HFree", o); jint("size", (long)o->len); jint("nonzero", (long)nonzero(o->p, o->len)); jint("taint", vgerr); jend();
 }
@@ -723,8 +786,8 @@ static void op_hminit(int re)
     gro(&k);
     long vg0 = VG_ERRORS();
     SECRET(k.p, k.len);
-    if (re) tinyjambu_hmac_reinit((tinyjambu_hmac_state_t *)o->p, gptr(&k), k.len);
-    else tinyjambu_hmac_init((tinyjambu_hmac_state_t *)o->p, gptr(&k), k.len);
+    if (re) tinyjambu_hmac_reinit(ONCE((tinyjambu_hmac_state_t *)o->p), gptr(&k), k.len);
+    else tinyjambu_hmac_init(ONCE((tinyjambu_hmac_state_t *)o->p), gptr(&k), k.len);
     PUBLIC(k.p, k.len);
     long vgerr = VG_ERRORS() - vg0;
     grw(&k);
@@ -738,7 +801,7 @@ static void op_hmupdate(void)
     gro(&d);
     long vg0 = VG_ERRORS();
     SECRET(d.p, d.len);
-    tinyjambu_hmac_update((tinyjambu_hmac_state_t *)o->p, gptr(&d), d.len);
+    tinyjambu_hmac_update(ONCE((tinyjambu_hmac_state_t *)o->p), gptr(&d), d.len);
     PUBLIC(d.p, d.len);
     long vgerr = VG_ERRORS() - vg0;
     grw(&d);
@@ -754,7 +817,7 @@ static void op_hmfinal(void)
     gro(&k);
     long vg0 = VG_ERRORS();
     SECRET(k.p, k.len);
-    tinyjambu_hmac_finalize((tinyjambu_hmac_state_t *)o->p, gptr(&k), k.len, out.p);
+    tinyjambu_hmac_finalize(ONCE((tinyjambu_hmac_state_t *)o->p), gptr(&k), k.len, out.p);
     PUBLIC(k.p, k.len); PUBLIC(out.p, 32);
     long vgerr = VG_ERRORS() - vg0;
     grw(&k);
@@ -766,7 +829,7 @@ static void op_hmfree(void)
 {
     gbuf *o = getobj(hmacobj, "hmacstate", sizeof(tinyjambu_hmac_state_t));
     long vg0 = VG_ERRORS();
-    tinyjambu_hmac_free((tinyjambu_hmac_state_t *)o->p);
+    tinyjambu_hmac_free(ONCE((tinyjambu_hmac_state_t *)o->p));
     long vgerr = VG_ERRORS() - vg0;
     emit_obj("HmFree", o); jint("size", (long)o->len); jint("nonzero", (long)nonzero(o->p, o->len)); jint("taint", vgerr); jend();
 }
@@ -807,7 +870,7 @@ static void op_hkextract(void)
     gro(&key); gro(&salt);
     long vg0 = VG_ERRORS();
     SECRET(key.p, key.len); SECRET(salt.p, salt.len);
-    tinyjambu_hkdf_extract((tinyjambu_hkdf_state_t *)o->p, gptr(&key), key.len, gptr(&salt), salt.len);
+    tinyjambu_hkdf_extract(ONCE((tinyjambu_hkdf_state_t *)o->p), gptr(&key), key.len, gptr(&salt), salt.len);
     PUBLIC(key.p, key.len); PUBLIC(salt.p, salt.len);
     long vgerr = VG_ERRORS() - vg0;
     grw(&key); grw(&salt);
@@ -825,7 +888,7 @@ static void op_hkexpand(void)
     memset(out.p, pf, len);
     gro(&info);
     long vg0 = VG_ERRORS();
-    int res = tinyjambu_hkdf_expand((tinyjambu_hkdf_state_t *)o->p, gptr(&info), info.len, gptr(&out), len);
+    int res = tinyjambu_hkdf_expand(ONCE((tinyjambu_hkdf_state_t *)o->p), gptr(&info), info.len, gptr(&out), len);
     PUBLIC(out.p, len); PUBLIC(&res, sizeof(res));
     long vgerr = VG_ERRORS() - vg0;
     grw(&info);
@@ -837,7 +900,7 @@ static void op_hkfree(void)
 {
     gbuf *o = getobj(hkdfobj, "hkdfstate", sizeof(tinyjambu_hkdf_state_t));
     long vg0 = VG_ERRORS();
-    tinyjambu_hkdf_free((tinyjambu_hkdf_state_t *)o->p);
+    tinyjambu_hkdf_free(ONCE((tinyjambu_hkdf_state_t *)o->p));
     long vgerr = VG_ERRORS() - vg0;
     emit_obj("HkFree", o); jint("size", (long)o->len); jint("nonzero", (long)nonzero(o->p, o->len)); jint("taint", vgerr); jend();
 }
@@ -1008,6 +1071,7 @@ static void op_script(void)
  * plain = tinyjambu_prng_init (system source) */
 static void op_pinit(void)
 {
+    inj_skipped[kvi("obj", 0) & 7] = 0;
     gbuf *o = getobj(prngobj, "prngstate", sizeof(tinyjambu_prng_state_t));
     const char *src = kv("src", "cb");
     gbuf cu; gvalue(&cu, "custom", kv("custom", "-"), 1);
@@ -1016,11 +1080,11 @@ static void op_pinit(void)
     ncalls = 0;
     gro(&cu);
     if (!strcmp(src, "cb"))
-        res = tinyjambu_prng_init_user((tinyjambu_prng_state_t *)o->p, scripted_cb, &ud_cookie, gptr(&cu), cu.len);
+        res = tinyjambu_prng_init_user(ONCE((tinyjambu_prng_state_t *)o->p), scripted_cb, &ud_cookie, gptr(&cu), cu.len);
     else if (!strcmp(src, "null"))
-        res = tinyjambu_prng_init_user((tinyjambu_prng_state_t *)o->p, NULL, NULL, gptr(&cu), cu.len);
+        res = tinyjambu_prng_init_user(ONCE((tinyjambu_prng_state_t *)o->p), NULL, NULL, gptr(&cu), cu.len);
     else
-        res = tinyjambu_prng_init((tinyjambu_prng_state_t *)o->p, gptr(&cu), cu.len);
+        res = tinyjambu_prng_init(ONCE((tinyjambu_prng_state_t *)o->p), gptr(&cu), cu.len);
     grw(&cu);
     PUBLIC(&res, sizeof(res));
     emit_obj("PInit", o); jstr("src", src); jbytes("custom", cu.p, cu.len); jint("cnull", cu.isnull); jint("res", res);
@@ -1029,6 +1093,7 @@ static void op_pinit(void)
 }
 static void op_pgen(void)
 {
+    if (inj_skipped[kvi("obj", 0) & 7]) { jbegin("PInjectSkip"); jint("obj", kvi("obj", 0)); jend(); return; }
     gbuf *o = getobj(prngobj, "prngstate", sizeof(tinyjambu_prng_state_t));
     size_t size = (size_t)kvi("size", 32);
     gbuf out; galloc(&out, "out", size, g_place, g_offn > 0 ? g_off[0] : 0);
@@ -1037,7 +1102,7 @@ static void op_pgen(void)
     ncalls = 0;
     gen_out = out.p; gen_size = size; gen_pf = pf;
     long vg0 = VG_ERRORS();
-    tinyjambu_prng_generate((tinyjambu_prng_state_t *)o->p, size ? out.p : gptr(&out), size);
+    tinyjambu_prng_generate(ONCE((tinyjambu_prng_state_t *)o->p), size ? out.p : gptr(&out), size);
     PUBLIC(out.p, size);
     long vgerr = VG_ERRORS() - vg0;
     gen_out = NULL;
@@ -1061,7 +1126,7 @@ static void op_pfeed(void)
     gro(&d);
     long vg0 = VG_ERRORS();
     SECRET(d.p, d.len);
-    tinyjambu_prng_feed((tinyjambu_prng_state_t *)o->p, gptr(&d), d.len);
+    tinyjambu_prng_feed(ONCE((tinyjambu_prng_state_t *)o->p), gptr(&d), d.len);
     PUBLIC(d.p, d.len);
     long vgerr = VG_ERRORS() - vg0;
     grw(&d);
@@ -1073,10 +1138,61 @@ static void op_preseed(void)
     gbuf *o = getobj(prngobj, "prngstate", sizeof(tinyjambu_prng_state_t));
     ncalls = 0;
     long vg0 = VG_ERRORS();
-    int res = tinyjambu_prng_reseed((tinyjambu_prng_state_t *)o->p);
+    int res = tinyjambu_prng_reseed(ONCE((tinyjambu_prng_state_t *)o->p));
     PUBLIC(&res, sizeof(res));
     long vgerr = VG_ERRORS() - vg0;
     emit_obj("PReseed", o); jint("res", res); jint("taint", vgerr); jentropy(); jend();
+}
+/* pinject obj= kind=wrap|ff|cff|zero|rand counter= seed= :
+ * White-box probe of the 256-bit addition V + Hash(3||V) + C + counter: the caller-owned state object is overwritten with
+ * a chosen (V, C, counter, limit) - any such value is reachable through the API in principle, but not in a lifetime of
+ * sampling (a carry out of the low 32 bits needs about 2^32 / counter blocks) - and the next pgen is judged by the
+ * specification from exactly that state.  The private layout (V[32], C[32], counter, limit, callback, user data) is
+ * checked through the API first; if it is not what this probe knows, the probe is skipped (PInjectSkip), never failed. */
+static void op_pinject(void)
+{
+    gbuf *o = getobj(prngobj, "prngstate", sizeof(tinyjambu_prng_state_t));
+    const char *kind = kv("kind", "wrap");
+    uint32_t counter = (uint32_t)kvi("counter", 32700), limit = 32768, c32, l32;
+    unsigned char V[32], C[32], H[32], in[33], seedv[32];
+    uint64_t seed = (uint64_t)kvi("seed", 1);
+    int ok = 0;
+    /* layout check through the API: a fresh object, limit 64 bytes -> 2 blocks at offset 68, counter 1 at offset 64,
+     * callback at 72, user data at 80 */
+    memset(seedv, 0x11, 32);
+    script_len = 1; script_pos = 0; script[0].n = 32; memcpy(script[0].bytes, seedv, 32); ncalls = 0;
+    tinyjambu_prng_init_user((tinyjambu_prng_state_t *)o->p, scripted_cb, &ud_cookie, NULL, 0);
+    tinyjambu_prng_set_reseed_limit((tinyjambu_prng_state_t *)o->p, 64);
+    memcpy(&c32, o->p + 64, 4); memcpy(&l32, o->p + 68, 4);
+    {
+        tinyjambu_prng_callback_t cb; void *ud;
+        memcpy(&cb, o->p + 72, sizeof(cb)); memcpy(&ud, o->p + 72 + sizeof(cb), sizeof(ud));
+        ok = sizeof(tinyjambu_prng_state_t) == 96 && c32 == 1 && l32 == 2 && cb == scripted_cb && ud == (void *)&ud_cookie;
+    }
+    tinyjambu_prng_set_reseed_limit((tinyjambu_prng_state_t *)o->p, 1u << 20);
+    memcpy(&l32, o->p + 68, 4);
+    ok = ok && l32 == 32768;
+    script_len = 0; script_pos = 0; ncalls = 0;
+    inj_skipped[kvi("obj", 0)] = !ok;
+    if (!ok) { jbegin("PInjectSkip"); jint("obj", kvi("obj", 0)); jend(); return; }
+    if (!strcmp(kind, "ff")) { memset(V, 0xFF, 32); memset(C, 0, 32); }
+    else if (!strcmp(kind, "cff")) { memset(V, 0xFF, 32); memset(C, 0xFF, 32); }
+    else if (!strcmp(kind, "zero")) { memset(V, 0, 32); memset(C, 0xFF, 32); C[31] = 0; }
+    else {
+        gen_data(C, 32, seed ^ 0xC0FFEE, 'r');
+        for (int tries = 0; tries < 4000000; tries++) {
+            gen_data(V, 32, seed * 7919 + (uint64_t)tries, 'r');
+            if (strcmp(kind, "wrap")) break;            /* rand: the first candidate */
+            in[0] = 0x03; memcpy(in + 1, V, 32);
+            tinyjambu_hash(H, in, 33);
+            unsigned carry = 0; uint64_t low = 0;
+            for (int i = 31; i >= 28; i--) { carry += V[i] + H[i] + C[i]; low |= (uint64_t)(carry & 0xFF) << (8 * (31 - i)); carry >>= 8; }
+            if (low + counter >= (1ull << 32)) break;   /* adding the counter carries out of the low 32 bits */
+        }
+    }
+    memcpy(o->p, V, 32); memcpy(o->p + 32, C, 32); memcpy(o->p + 64, &counter, 4); memcpy(o->p + 68, &limit, 4);
+    jbegin("PInject"); jint("obj", kvi("obj", 0)); jstr("kind", kind); jbytes("V", V, 32); jbytes("C", C, 32);
+    jint("counter", (long)counter); jint("limit", (long)limit); jint("canary", gcanary(o)); jend();
 }
 static void op_plimit(void)
 {
@@ -1084,7 +1200,7 @@ static void op_plimit(void)
     size_t lim = (size_t)strtoull(kv("limit", "1024"), NULL, 0);
     ncalls = 0;
     long vg0 = VG_ERRORS();
-    tinyjambu_prng_set_reseed_limit((tinyjambu_prng_state_t *)o->p, lim);
+    tinyjambu_prng_set_reseed_limit(ONCE((tinyjambu_prng_state_t *)o->p), lim);
     long vgerr = VG_ERRORS() - vg0;
     /* limits are logged in two halves: TLC integers are 32-bit */
     emit_obj("PLimit", o); jint("taint", vgerr); jint("lo", (long)(lim & 0xFFFFFF)); jint("hi", (long)((lim >> 24) & 0xFFFFFF));
@@ -1094,7 +1210,7 @@ static void op_pfree(void)
 {
     gbuf *o = getobj(prngobj, "prngstate", sizeof(tinyjambu_prng_state_t));
     long vg0 = VG_ERRORS();
-    tinyjambu_prng_free((tinyjambu_prng_state_t *)o->p);
+    tinyjambu_prng_free(ONCE((tinyjambu_prng_state_t *)o->p));
     long vgerr = VG_ERRORS() - vg0;
     emit_obj("PFree", o); jint("size", (long)o->len); jint("nonzero", (long)nonzero(o->p, o->len)); jint("taint", vgerr); jend();
 }
@@ -1222,7 +1338,7 @@ static void op_reset(void)
         if (hkdfobj[i].map) gfree(&hkdfobj[i]);
         if (prngobj[i].map) gfree(&prngobj[i]);
     }
-    script_len = script_pos = 0;
+    script_len = script_pos = 0; memset(inj_skipped, 0, sizeof(inj_skipped));
     obj_fill = (int)kvi("fill", 0xAA);
     jbegin("Reset"); jend();
 }
@@ -1255,6 +1371,7 @@ int main(void)
         g_offn = 0;
         { const char *o = kv("off", NULL);
           if (o) { char *c = strdup(o), *sv = NULL; for (char *t = strtok_r(c, ",", &sv); t && g_offn < 8; t = strtok_r(NULL, ",", &sv)) g_off[g_offn++] = (unsigned)atoi(t); free(c); } }
+        g_evals = 0;
         if (!strcmp(cur_op, "reset")) op_reset();
         else if (!strcmp(cur_op, "enc")) op_enc();
         else if (!strcmp(cur_op, "dec")) op_dec(0);
@@ -1270,6 +1387,7 @@ int main(void)
         else if (!strcmp(cur_op, "hinit")) op_hinit(0);
         else if (!strcmp(cur_op, "hreinit")) op_hinit(1);
         else if (!strcmp(cur_op, "hupdate")) op_hupdate();
+        else if (!strcmp(cur_op, "hmove")) op_hmove();
         else if (!strcmp(cur_op, "hfinal")) op_hfinal();
         else if (!strcmp(cur_op, "hfree")) op_hfree();
         else if (!strcmp(cur_op, "hmac")) op_hmac();
@@ -1289,6 +1407,7 @@ int main(void)
         else if (!strcmp(cur_op, "pfeed")) op_pfeed();
         else if (!strcmp(cur_op, "preseed")) op_preseed();
         else if (!strcmp(cur_op, "plimit")) op_plimit();
+        else if (!strcmp(cur_op, "pinject")) op_pinject();
         else if (!strcmp(cur_op, "pfree")) op_pfree();
         else if (!strcmp(cur_op, "clean")) op_clean();
         else if (!strcmp(cur_op, "deadstate")) op_deadstate();
